@@ -166,6 +166,22 @@ class Extractor:
             if isinstance(v, ast.Call) and isinstance(v.func, ast.Attribute) and v.func.attr in ("append", "extend") and isinstance(v.func.value, ast.Name) \
                     and isinstance(self.env.get(v.func.value.id), list):
                 self.expr(v)  # building an argument list
+                return
+            if isinstance(v, ast.Call) and any(k.arg == "out" for k in v.keywords):
+                # np.ufunc(a, b, out=view): a store through the view
+                outn = [k.value for k in v.keywords if k.arg == "out"][0]
+                tgt = self.view_target(outn)
+                if tgt is None:
+                    self.err("`out=` target is not a view of a recursion table bound in this function", st)
+                call2 = ast.Call(func=v.func, args=v.args, keywords=[k for k in v.keywords if k.arg != "out"])
+                syn = ast.Assign(targets=[tgt], value=call2)
+                ast.copy_location(syn, st)
+                ast.copy_location(call2, v)
+                ast.fix_missing_locations(syn)
+                self.synthetic = getattr(self, "synthetic", {})
+                self.synthetic[id(syn)] = st
+                self.store(syn)
+                return
             return
         if isinstance(st, ast.Assign):
             if len(st.targets) == 1 and isinstance(st.targets[0], ast.Subscript):
@@ -196,6 +212,13 @@ class Extractor:
                 self.bind(t, v, st)
             return
         if isinstance(st, ast.AugAssign):
+            if isinstance(st.target, ast.Name) and self.view_target(st.target) is not None:
+                # `view op= x` writes through to the table: the same as `table[idx] op= x`
+                syn = ast.AugAssign(target=self.view_target(st.target), op=st.op, value=st.value)
+                ast.copy_location(syn, st)
+                ast.fix_missing_locations(syn)
+                self.stmt(syn)
+                return
             if isinstance(st.target, ast.Name):
                 cur = self.expr(st.target)
                 v = self.expr(st.value)
@@ -214,7 +237,14 @@ class Extractor:
                 ast.fix_missing_locations(syn)
                 self.synthetic = getattr(self, "synthetic", {})
                 self.synthetic[id(syn)] = st
-                self.store(syn)
+                self._forwarding, self._forwarded = True, None
+                try:
+                    self.store(syn)
+                finally:
+                    self._forwarding = False
+                if self._forwarded is not None and self._forwarded in self.stores and self.stores[-1] is not self._forwarded:
+                    # `T[idx] = a` followed by `T[idx] op= b`: one store of `a op b`
+                    self.stores.remove(self._forwarded)
                 return
             self.err("augmented store", st)
         if isinstance(st, ast.For):
@@ -232,7 +262,8 @@ class Extractor:
             if h is not None and h(self, st):
                 return
             try:
-                tv0 = self.expr(st.test) if isinstance(st.test, ast.Compare) and isinstance(st.test.ops[0], (ast.Is, ast.IsNot)) else None
+                simple = isinstance(st.test, ast.Name) or (isinstance(st.test, ast.UnaryOp) and isinstance(st.test.op, ast.Not) and isinstance(st.test.operand, ast.Name))
+                tv0 = self.expr(st.test) if simple or (isinstance(st.test, ast.Compare) and isinstance(st.test.ops[0], (ast.Is, ast.IsNot))) else None
             except AnalysisError:
                 tv0 = None
             if isinstance(tv0, bool):
@@ -269,10 +300,82 @@ class Extractor:
                 return
             if self.early_return(st):
                 return
+            if self.skippable_scaling(st):
+                return
             self.err("branch inside a recursion kernel", st)
         if isinstance(st, (ast.Pass, ast.Raise)):
             return
         self.err(f"statement {type(st).__name__}", st)
+
+    def skippable_scaling(self, st):
+        """`if np.any(A > k): X *= f(A)` - the scaling is skipped when no entry of the integer array A exceeds k.  Exact iff f is 1
+        whenever every entry of A is in 0..k: decided by substituting all such values (double factorials of arguments <= 1 are 1).
+        The body is then analysed as always taken."""
+        t = st.test
+        if st.orelse:
+            return False
+        cmp_ = None
+        if isinstance(t, ast.Call) and dotted(t.func) in ("np.any", "numpy.any") and len(t.args) == 1:
+            cmp_ = t.args[0]
+        elif isinstance(t, ast.Call) and isinstance(t.func, ast.Attribute) and t.func.attr == "any" and not t.args:
+            cmp_ = t.func.value
+        if not (isinstance(cmp_, ast.Compare) and len(cmp_.ops) == 1 and isinstance(cmp_.ops[0], (ast.Gt, ast.GtE)) and isinstance(cmp_.comparators[0], ast.Constant)
+                and isinstance(cmp_.comparators[0].value, int)):
+            return False
+        kmax = cmp_.comparators[0].value - (1 if isinstance(cmp_.ops[0], ast.GtE) else 0)
+        if not 0 <= kmax <= 2:
+            return False
+        for x in st.body:
+            if not (isinstance(x, ast.Assign) and all(isinstance(tg, ast.Name) for tg in x.targets)) and \
+                    not (isinstance(x, ast.AugAssign) and isinstance(x.op, ast.Mult) and isinstance(x.target, ast.Name)):
+                return False
+        try:
+            A_ = self.expr(cmp_.left)
+        except AnalysisError:
+            return False
+        if not isinstance(A_, SV) or not isinstance(A_.e, sp.Function) or not A_.e.args:
+            return False
+        head = A_.e.func
+        saved_env = dict(self.env)
+        for x in st.body:
+            if isinstance(x, ast.AugAssign):
+                try:
+                    v = self.expr(x.value)
+                except AnalysisError:
+                    self.env = saved_env
+                    return False
+                atoms = sorted({a for a in v.e.atoms(sp.Function) if a.func == head}, key=str)
+                if not atoms or len(atoms) > 4:
+                    self.env = saved_env
+                    return False
+                import itertools as _it
+                for vals in _it.product(range(kmax + 1), repeat=len(atoms)):
+                    w = v.e.subs(dict(zip(atoms, vals)))
+                    w = w.replace(lambda z: getattr(z, "func", None) == sp.Function("F2") and z.args[0].is_number,
+                                  lambda z: sp.Integer(1) if z.args[0] <= 1 else sp.factorial2(z.args[0]))
+                    if sp.simplify(w - 1) != 0:
+                        raise KernelDefect(f"`{ast.unparse(x)[:60]}` is skipped unless `{ast.unparse(t)[:50]}`, but the factor is {sp.simplify(w)} (not 1) "
+                                           f"for {dict(zip([str(a_) for a_ in atoms], vals))}", st)
+            self.stmt(x)
+        self.shared.setdefault("exact_skips", []).append((self.func, st))
+        return True
+
+    def view_target(self, node):
+        """For a name bound to a basic-slicing view of a recursion table: the subscript expression it was taken with (store context)"""
+        if not isinstance(node, ast.Name):
+            return None
+        v = self.env.get(node.id)
+        rid = getattr(v, "table_ref", None)
+        if rid is None or rid not in self.refs:
+            return None
+        src = self.refs[rid]["node"]
+        if not isinstance(src, ast.Subscript):
+            return None
+        self.refs[rid]["view_only"] = True  # taken as a place to write to, not as a value
+        import copy
+        t = copy.deepcopy(src)
+        t.ctx = ast.Store()
+        return t
 
     def early_return(self, st):
         """`if n == const: return table` on an undecided scalar: the analysis goes on with the general path; at the function's real
@@ -307,7 +410,7 @@ class Extractor:
                     continue
                 probe = Store(s_.func, s_.node, s_.table, s_.index, s_.rhs, [(v_, lo.subs(sub), hi.subs(sub)) for v_, lo, hi in s_.loops])
                 if not store_outside_table(probe, sized):
-                    raise LabelMismatch(f"the early return under `{ast.unparse(pe['node'].test)}` skips the store `{s_.text[:60]}`, which the general path "
+                    raise KernelDefect(f"the early return under `{ast.unparse(pe['node'].test)}` skips the store `{s_.text[:60]}`, which the general path "
                                         f"performs for that case too: the returned table differs", pe["node"])
             self.shared.setdefault("verified_early_returns", []).append((self.func, pe["node"]))
 
@@ -928,6 +1031,14 @@ class Extractor:
         if getattr(base, "table", None) is not None:
             table = base.table
             index = self.index_of(table, e.slice, e)
+            # store forwarding: reading back exactly what the latest store into this table wrote (same index, same loop iteration)
+            prev = [s_ for s_ in self.stores if s_.table is table]
+            if prev and isinstance(getattr(e, "ctx", None), ast.Load):
+                sp_ = prev[-1]
+                if [ix.text for ix in sp_.index] == [ix.text for ix in index] and getattr(sp_, "loop_ids", None) == list(self.shared.get("loop_ids", [])) \
+                        and getattr(self, "_forwarding", False):
+                    self._forwarded = sp_
+                    return sp_.rhs
             rid = next(self.counter)
             labels = self.labels_after_index(table, index)
             self.refs[rid] = dict(table=table, index=index, labels=labels, node=e, func=self.func, loops=list(self.loops),
@@ -1436,6 +1547,17 @@ class Extractor:
                     return SV(v.e, [])
                 if isinstance(v.e, OrderTab) and int(v.e.args[0]) in ORDER_TABLES:
                     return SV(sp.Integer(max(max(r) for r in ORDER_TABLES[int(v.e.args[0])])), [])
+                tabs_ = list(v.e.atoms(OrderTab))
+                if len(tabs_) == 1 and int(tabs_[0].args[0]) in ORDER_TABLES:
+                    # an increasing affine function k * table + b (k > 0) of a literal order table: the maximum is taken at the largest entry
+                    tsym = sp.Symbol("tab_entry", real=True)
+                    fexp = v.e.subs(tabs_[0], tsym)
+                    k_ = sp.diff(fexp, tsym)
+                    if fexp.free_symbols == {tsym} and k_.is_number and k_ > 0:
+                        top = max(max(r) for r in ORDER_TABLES[int(tabs_[0].args[0])])
+                        val_ = sp.simplify(fexp.subs(tsym, top))
+                        if val_.is_number:
+                            return SV(val_, [])
                 return SV(sp.Function("Max_over")(v.e.subs(c, sp.Symbol("c_any"))), [])
         if short == "array" and e.args and isinstance(e.args[0], ast.List):
             try:
@@ -1581,6 +1703,9 @@ class Extractor:
                 sid = next(self.counter)
                 self.shared.setdefault("stacks", {})[sid] = [x.e for x in items]
                 return SV(Stack(sp.Integer(sid), sp.Symbol("stackrow")), [Lab(("stack", sid, len(items)))] + list(labs))
+        if short in ("multiply", "add", "subtract", "divide", "true_divide") and len(e.args) == 2 and not e.keywords:
+            op = {"multiply": ast.Mult(), "add": ast.Add(), "subtract": ast.Sub(), "divide": ast.Div(), "true_divide": ast.Div()}[short]
+            return self.binop(op, self.expr(e.args[0]), self.expr(e.args[1]), e)
         if short == "empty" and e.args:
             shp = e.args[0]
             first = None
@@ -1709,6 +1834,11 @@ class LabelMismatch(Exception):
 
     def __init__(self, msg, node, involved=None):
         self.msg, self.node, self.involved = msg, node, involved
+
+
+class KernelDefect(LabelMismatch):
+    """A definite defect found while evaluating a kernel that is not an axis mismatch (reported by the same handlers, message as is)"""
+    plain = True
 
 
 def store_outside_table(store, tab):
